@@ -199,7 +199,7 @@ def run(tier, seed):
     ev.sample({"fn": events[0]["fn"], "values": meta[1][3]})
     ev.cov["repository_fixture_pairs_scored"] = n_real
     ev.cov["rule"] = ("every evaluate() and metric function of the 13 tasks on seeded valid inputs of all shapes with default and "
-                      "non-default in-range parameters; each returned value classified by Trace_Range; distinct = distinct "
+                      "non-default in-range parameters, + the repository's annotation fixtures; each returned value classified by Trace_Range; distinct = distinct "
                       "(function, input, parameters); non-trivial = some value strictly between 0 and 1")
     ev.d["assumptions"] = ["the P-score bound is only required when beats inside each sequence are further apart than twice the "
                            "correlation window (flag computed by the harness from the input)", "bounds of the transcendental scores "
